@@ -124,7 +124,7 @@ def replay_cases(rep, tally, cases, tag):
         os.remove(p)
 
 
-def run_enumeration(rep, tier, tally):
+def run_enumeration(rep, tier, tally, seed=1):
     stats = {"generated": 0, "distinct": 0, "wall": 0.0, "runs": 0, "ok": True, "violated": None}
 
     def one(cfg, first, tag, workers):
@@ -349,7 +349,7 @@ def run(rep, tier, seed, selftest):
     common.build_harness()
     os.makedirs(common.WORK, exist_ok=True)
     tally = Tally()
-    stats = run_enumeration(rep, tier, tally)
+    stats = run_enumeration(rep, tier, tally, seed)
     log("[replay] %d texts enumerated by TLC and lexed by both real lexers; %d violations so far" %
         (tally.texts, len(rep.violations)))
     enumerated = tally.texts
